@@ -46,10 +46,18 @@ def run(tier, seed):
         rows = vlib.read_ndjson(tr)
         # threshold use: boundary certificates through the real Verify* for n in 1..13 (driver shared with C02)
         tr2 = os.path.join(d, "use.ndjson")
-        vlib.run_harness(["c02", "-out", tr2, "-seed", seed, "-ns", ",".join(str(i) for i in range(1, 14)),
-                          "-schemes", "eddsa" if tier == "quick" else "eddsa,ecdsa,bls12", "-reps", 1], timeout=1200)
+        died = None
+        try:
+            vlib.run_harness(["c02", "-out", tr2, "-seed", seed, "-ns", ",".join(str(i) for i in range(1, 14)),
+                              "-schemes", "eddsa" if tier == "quick" else "eddsa,ecdsa,bls12", "-reps", 1], timeout=1200, partial_ok=True)
+            use_rows = vlib.read_ndjson(tr2)
+        except vlib.HarnessDied as e:
+            # the shared driver gave up (e.g. honest signatures at the quorum size could not be combined): the numbers dumped above and
+            # what it wrote so far are still judged; only if they show nothing is this an infrastructure error
+            died = str(e)
+            use_rows = vlib.read_ndjson_partial(tr2)
         nuse = 0
-        for x in vlib.read_ndjson(tr2):
+        for x in use_rows:
             if x["kind"] in ("qc", "tc") and (x["mut"].startswith("plain-") or x["mut"] == "honest-created") and not x["cache"]:
                 sg = x[x["kind"]]["sig"]
                 rows.append({"kind": "use", "n": x["n"], "what": x["kind"], "scheme": x["scheme"],
@@ -109,6 +117,8 @@ def run(tier, seed):
                             {"line": lf, "case": line, "harness": "hsverif %s -seed %d" % (drv, seed)})
             elif rtf.status != "ok":
                 raise vlib.InfraError("formation check %s: %r" % (drv, rtf))
+    if died and not v.violations:
+        raise vlib.InfraError("threshold-use driver died and nothing judged so far is wrong: " + died)
     rc = v.finish()
     samples = [{"n": rows[0]["n0"] + i, "f": rows[0]["f"][i], "q": rows[0]["q"][i]} for i in (0, 3, 6, 12)]
     samples += [x for x in rows if x["kind"] == "config"][:3]
